@@ -508,7 +508,7 @@ func init() {
 			var specs []Spec
 			for i := 0; i < 16; i++ {
 				s := d.NewSpec("cfg", fmt.Sprintf("cfg-%d", i), i, 16)
-				s.N = d.Pick(1000, 20000)
+				s.N = d.Pick(4000, 40000)
 				specs = append(specs, s)
 			}
 			d.RunWorkers(specs, 16)
